@@ -915,13 +915,15 @@ Qed.
 Theorem km4_spec k p : grammar p = true -> key_match4 k (render3 p) = Some (spec_km4 p k).
 Proof.
   intros Hg. unfold key_match4. rewrite rewrite_km4_render by exact Hg.
-  rewrite (parse_regex_rend _ true false p rep_reads_cap Hg). cbn [option_map]. f_equal.
+  rewrite (parse_regex_rend _ true false p rep_reads_cap Hg).
   unfold spec_km4. destruct p as [|s p].
   - cbn [compile flat_map names]. rewrite amatch_nil. destruct k; reflexivity.
   - rewrite amatch_compile by (try exact Hg; discriminate).
     destruct (key_segments k) as [ks|]; [|reflexivity].
     destruct (spec_match (s :: p) ks) as [b|] eqn:E; [|reflexivity].
-    cbn [option_map caps_of]. rewrite <- (spec_match_names _ _ _ E). apply consistent_bindings.
+    cbn [option_map caps_of]. rewrite <- (spec_match_names _ _ _ E).
+    (* as many tokens as captures: the source's count check passes on the grammar *)
+    rewrite !map_length, Nat.eqb_refl. f_equal. apply consistent_bindings.
 Qed.
 
 (* the empty pattern text *)
